@@ -125,3 +125,8 @@ add_e1_part("C08", "C08.json",
             "scalar.IsCanonical(sb) <=> LE(sb) < l, point.IsCanonical(s) <=> LE(s with bit 255 cleared) < p and HasSmallOrder() <=> the encoding is one of the five listed small-order encodings, each for ALL 2^256 byte strings (bit-vector queries), plus the length guards.",
             ["E1: all 2^256 32-byte inputs; lengths 0, 31, 33 for the guards"],
             ["HasSmallOrder is checked over all byte strings through a stub of MarshalBinary; a counterexample that is not the encoding of a curve point is a candidate only (reported INCONCLUSIVE)"])
+
+e1prop("C19", "XOFs and random streams", "C19.json",
+       "random.Bits: for every bit length in the bound, exact in {false,true} and ALL stream bytes: length = ceil(n/8), value < 2^n, top bit forced iff exact, every unforced bit is the stream's bit unchanged (no bias from masking), no panic. random.Int: for every modulus in the bound and all stream bytes, the result is the first candidate below the modulus, every rejected candidate was >= modulus (pure rejection sampling, no modulo step), 0 <= result < modulus; math/big modelled as mathematical integers.",
+       ["quick: Bits for bit lengths 0..24, 31..33, 40, 64, 65; Int for moduli {1,2,3,7,8,9,255,256,257,65537}, at most 3 rejection rounds (stated assumption)", "thorough: Bits 0..40, 47..49, 63..65, 72; Int for 23 moduli up to 65537; second solver"],
+       ["the sponge/compression functions of BLAKE2/SHAKE and sha256 themselves", "XOF wrapper state machines (xof/blake2xb, blake2xs, keccak): see DESIGN.md, not encoded yet", "Int with more than 3 rejection rounds; moduli above 2^17 (the code path is identical; big.Int is a stub)"])
